@@ -1,9 +1,9 @@
 #!/bin/bash
-# usage: seedverify.sh <PROP> <mK>  — confirms a sub-agent's change in the scratch worktree /tmp/mut/<PROP>
+# usage: seedverify.sh <PROP> <mK> [dest-name]  — confirms a sub-agent's change in the scratch worktree /tmp/mut/<PROP>
 # and stores it as /verif/seeded/<PROP>-<mK>/ when everything holds.
 set -u
 P=$1; K=$2
-WT=/tmp/mut/$P; SRC=/tmp/mut/out/$P/$K; DST=/verif/seeded/$P-$K
+WT=/tmp/mut/$P; SRC=/tmp/mut/out/$P/$K; DST=/verif/seeded/${3:-$P-$K}
 export GOPROXY=off GOFLAGS=-mod=mod
 cd "$WT" || exit 2
 git checkout -q -- . && git clean -fdq
